@@ -1700,6 +1700,8 @@ _EXTERNAL_INTRINSICS = {
     "math.ceil": _x_math_ceil,
     "math.floor": _x_math_floor,
     "warnings.warn": _x_warn,
+    # the scenarios of the rules run outside torch.inference_mode() unless a rule's hooks say otherwise
+    "torch.is_inference_mode_enabled": lambda it, args, kw, node, fi: False,
 }
 
 
